@@ -46,8 +46,11 @@ def gen_case(rng):
     pols = rng.choice([1, 2])
     if antenna and pols == 2 and rng.random() < 0.5:
         extra["probe_y"] = rng.choice(["complex", "real", "none"])        # the polarisations need not carry the same kind of custom source
+    probe = rng.choice(["complex", "complex", "real", "none", "table"])
+    if probe == "table" and not (dyadic and t0 + 5000 + 9 * 348 < 24000):
+        probe = "complex"            # the table-backed source indexes by sample number: exact at dyadic rates only
     return dict(extra, sr=sr, dyadic=dyadic, fch1=rng.choice([0.0, 0.0, sr * 2]), ascending=rng.random() < 0.5, t0=t0, seed=rng.randint(0, 10 ** 6),
-                noise=noise, chirps=chirps, probe=rng.choice(["complex", "complex", "real", "none"]), ops=ops, antenna=antenna, pols=pols)
+                noise=noise, chirps=chirps, probe=probe, ops=ops, antenna=antenna, pols=pols)
 
 
 def g_ops(c):
@@ -70,7 +73,7 @@ def g_ops(c):
 def run(ctx):
     rng = ctx.rng
     quick = ctx.tier == "quick"
-    ctx.rule = ("DataStream and Antenna (1-2 pols) with 0-2 noise sources, 0-2 chirps, real / complex / no custom source, both orientations, "
+    ctx.rule = ("DataStream and Antenna (1-2 pols) with 0-2 noise sources, 0-2 chirps, real / complex (computed or handing out views of a waveform table) / no custom source, both orientations, "
                 "dyadic (bit-exact) and realistic (toleranced) sample rates, random op lists of get / set_time / add_time / reset_start / "
                 "update_noise; non-trivial = at least two requests; distinct = distinct case")
     ctx.assumptions = ["numpy Generator.standard_normal(a) then (b) equals (a+b) (re-checked in this run)",
